@@ -346,6 +346,25 @@ pub fn stress_inputs() -> Vec<(String, String)> {
     add("macro-argument-doubling", ".macro m\n m @0+@0\n.endm\n m 1".into());
     add("macro-argument-doubling-two", ".macro m\n m @0*@0, @1\n.endm\n m 1, r16".into());
     add("macro-argument-growing-nested", ".macro a\n b (@0)+(@0)+(@0)\n.endm\n.macro b\n a (@0)|(@0)\n.endm\n a 1".into());
+    // recursion through every kind of expression node
+    for (tag, def) in [("function", "low(a)"), ("unary", "-a"), ("not", "!a"), ("binary-left", "a + 1"), ("binary-right", "1 + a"), ("parentheses", "(a)"), ("nested-function", "high(low(a + 1))"), ("logical", "0 && a"), ("shift", "1 << a")] {
+        add(&format!("equ-self-reference-through-{}", tag), format!(".equ a = {}\n.dw a", def));
+        add(&format!("equ-cycle-through-{}", tag), format!(".equ a = {}\n.equ b = a\nldi r16, low(b)", def.replace('a', "b")));
+        add(&format!("equ-self-reference-through-{}-in-if", tag), format!(".equ a = {}\n.if a\nnop\n.endif", def));
+    }
+    add("set-self-reference-through-function", ".set a = low(a)\n.dw a".into());
+    // operand-count sweep: 0..=40 operands for macros, instructions and directives
+    for n in 0..=40usize {
+        let ops = vec!["1"; n].join(", ");
+        let regs = (0..n).map(|i| format!("r{}", i % 32)).collect::<Vec<_>>().join(", ");
+        add(&format!("macro-call-with-{}-operands", n), format!(".macro mo\n.db @0\n.endm\nmo {}", ops));
+        add(&format!("macro-call-with-{}-operands-high-placeholders", n), format!(".macro mo\n.db @9, @10, @15, @39\n.endm\nmo {}", ops));
+        add(&format!("macro-call-with-{}-register-operands", n), format!(".macro mo\nmov @0, @1\n.endm\nmo {}", regs));
+        add(&format!("undefined-macro-with-{}-operands", n), format!("undefined_mo {}", ops));
+        for head in ["nop", "ldi", "mov", "lpm", "rjmp", "brbs", ".db", ".dw", ".byte", ".org", ".device", ".if", ".message", ".def", ".equ", ".include", ".macro", ".undef", "#pragma"] {
+            add(&format!("{}-with-{}-operands", head, n), format!("{} {}", head, if head == "mov" || head == "lpm" { regs.clone() } else { ops.clone() }));
+        }
+    }
     add("equ-self-reference", ".equ a = a\n.dw a".into());
     add("equ-self-reference-unused", ".equ a = a+1".into());
     add("equ-cycle-2", ".equ a = b\n.equ b = a\nldi r16, a".into());
